@@ -68,12 +68,20 @@ def prior_builder(C):
     return builders.normalize(C, prior_counts=1)
 
 
+import functools      # noqa: E402
+
+# builders with a FRACTIONAL pseudo-count, bound the way the library's own apps do it (functools.partial): the counts
+# that reach the estimation are then dense float64
+prior_quarter_normalize = functools.partial(builders.normalize, prior_counts=0.25)
+prior_quarter_transpose = functools.partial(builders.transpose, prior_counts=0.25)
+
 METHODS = {
     "name:normalize": "normalize", "name:transpose": "transpose", "name:mle": "mle",
     "fn:normalize": builders.normalize, "fn:transpose": builders.transpose, "fn:mle": builders.mle,
-    "fn:prior": prior_builder,
+    "fn:prior": prior_builder, "fn:priorq_normalize": prior_quarter_normalize, "fn:priorq_transpose": prior_quarter_transpose,
 }
-ALL_METHODS = ["name:normalize", "fn:normalize", "name:transpose", "fn:transpose", "fn:prior", "name:mle", "fn:mle"]
+ALL_METHODS = ["name:normalize", "fn:normalize", "name:transpose", "fn:transpose", "fn:prior", "name:mle", "fn:mle",
+               "fn:priorq_normalize", "fn:priorq_transpose"]
 FN_METHODS = [m for m in ALL_METHODS if m.startswith("fn:")]
 
 
@@ -284,6 +292,15 @@ def run_pipeline(case):
                 got=Cm.tolist(), want=Cs.tolist())
         require(close(Tm, Ts, TOL_SAME) and close(pim, ps, TOL_SAME), "transpose T / populations differ from reference",
                 gotT=Tm.tolist(), wantT=Ts.tolist(), gotp=pim.tolist(), wantp=ps.tolist())
+    elif mk == "priorq_normalize":
+        require(np.array_equal(Cm, Ct + 0.25), "counts differ from reference counts + 0.25", got=Cm.tolist())
+        require(close(Tm, R.ref_normalize(Ct + 0.25), TOL_SAME), "T differs from row-normalised (counts + 0.25)")
+        require(close(pim, R.stationary(R.ref_normalize(Ct + 0.25)), 1e-9 * TS), "populations not stationary (counts + 0.25)")
+    elif mk == "priorq_transpose":
+        Cs, Ts, ps = R.ref_transpose(Ct + 0.25)
+        require(np.array_equal(Cm, Cs), "counts differ from ((C + 0.25) + (C + 0.25)^T)/2", got=Cm.tolist(), want=Cs.tolist())
+        require(close(Tm, Ts, TOL_SAME) and close(pim, ps, TOL_SAME), "transpose T / populations differ from reference "
+                "(counts + 0.25)", gotT=Tm.tolist(), wantT=Ts.tolist(), gotp=pim.tolist(), wantp=ps.tolist())
     elif mk == "prior":
         require(np.array_equal(Cm, Ct + 1), "counts differ from reference counts + 1", got=Cm.tolist())
         require(close(Tm, R.ref_normalize(Ct + 1), TOL_SAME), "T differs from row-normalised (counts + 1)")
@@ -362,7 +379,11 @@ def run_roundtrip(case):
     require(files == want_files, "unexpected files written", got=files, want=want_files)
 
     c1, c2 = m.config, m2.config
-    require(set(c1) == set(c2) and all(c1[k] == c2[k] for k in c1 if k != "method") and c1["method"] is c2["method"],
+    def same_method(f, g):
+        if isinstance(f, functools.partial) and isinstance(g, functools.partial):      # a pickled partial is a new object
+            return f.func is g.func and f.args == g.args and f.keywords == g.keywords
+        return f is g
+    require(set(c1) == set(c2) and all(c1[k] == c2[k] for k in c1 if k != "method") and same_method(c1["method"], c2["method"]),
             "config changed by save/load", before={k: str(v) for k, v in c1.items()},
             after={k: str(v) for k, v in c2.items()})
     require(c2["lag_time"] == lag and c2["trim"] == case["trim"] and c2["sliding_window"] == case["sliding"],
@@ -380,10 +401,13 @@ def run_roundtrip(case):
     require(p2.shape == snap[2].shape and np.array_equal(p2, snap[2]),
             "populations not bit-identical after save/load",
             maxdiff=float(np.max(np.abs(p2 - snap[2]))) if p2.shape == snap[2].shape else None)
-    eq12 = (m == m2)
-    eq21 = (m2 == m)
-    require(eq12 is True or eq12 == True, "model != loaded model according to MSM.__eq__")   # noqa: E712
-    require(bool(eq21), "loaded model != model according to MSM.__eq__")
+    if not isinstance(c1["method"], functools.partial):
+        # (MSM.__eq__ compares the configuration dicts with ==, and functools.partial objects only equal themselves: for
+        # a partial builder the class's own == cannot hold after unpickling; the contents were compared above)
+        eq12 = (m == m2)
+        eq21 = (m2 == m)
+        require(eq12 is True or eq12 == True, "model != loaded model according to MSM.__eq__")   # noqa: E712
+        require(bool(eq21), "loaded model != model according to MSM.__eq__")
     # and the equality is not vacuous: a different lag time is a different model
     other = MSM(lag_time=lag + 1, method=METHODS[case["method"]], trim=case["trim"],
                 sliding_window=case["sliding"], max_n_states=case["max_n_states"])
